@@ -123,6 +123,7 @@ pub fn run(ctx: &mut Ctx) {
   state_machine(ctx);
   spdc_level(ctx);
   window_routes(ctx);
+  domain_counts(ctx);
   history(ctx);
 }
 
@@ -354,6 +355,48 @@ fn gen_period_for(r: &mut Rng, len: f64, max_domains: f64) -> f64 {
   }
 }
 
+/// the statement's per-entry clauses on one domain list (fractions in [0,1] summing to 1, sin(πd) = |a| at the
+/// domain's centre, (½,½) for a = 1, orientation flipping at the crystal centre) — for window values in [-1,1]
+fn list_clauses(ctx: &mut Ctx, desc: &str, w: &Apodization, len: f64, d: &[(f64, f64)]) {
+  let n = d.len();
+  let mut ok_frac = true;
+  let mut ok_duty = true;
+  let mut ok_orient = true;
+  let mut why = String::new();
+  for (j, (p, q)) in d.iter().enumerate() {
+    let zc = -1. + (2. * j as f64 + 1.) / n as f64;
+    let a = match ic(w, zc.clamp(-1., 1.), len) {
+      Some(a) => a,
+      None => continue,
+    };
+    if !(a.abs() <= 1.) {
+      continue; // outside the statement's hypothesis (window values in [-1,1])
+    }
+    if !(*p >= 0. && *p <= 1. && *q >= 0. && *q <= 1. && (p + q - 1.).abs() <= 1e-15) {
+      ok_frac = false;
+      why = format!("j={} pair=({:e},{:e})", j, p, q);
+    }
+    let narrow = p.min(*q);
+    // sin(π d) = |a|; the formula acos(1-2a²)/2π is conditioned like 1e-16/|a| (and 1e-8 absolutely near a = 0)
+    if ((PI * narrow).sin() - a.abs()).abs() > 5e-8 {
+      ok_duty = false;
+      why = format!("j={} a={:e} d={:e} sin(pi d)={:e}", j, a, narrow, (PI * narrow).sin());
+    }
+    if a == 1. && !(*p == 0.5 && *q == 0.5) {
+      ok_duty = false;
+      why = format!("j={} a=1 pair=({:e},{:e})", j, p, q);
+    }
+    // the narrower fraction comes first in the first half of the crystal, second in the second half
+    if (zc < -1e-12 && p > q) || (zc > 1e-12 && p < q) {
+      ok_orient = false;
+      why = format!("j={} zc={:e} pair=({:e},{:e})", j, zc, p, q);
+    }
+  }
+  ctx.s("C19.domains", ok_frac, "domains/fractions", &format!("{} {}", desc, why));
+  ctx.s("C19.domains", ok_duty, "domains/duty-cycle", &format!("{} {}", desc, why));
+  ctx.s("C19.domains", ok_orient, "domains/orientation", &format!("{} {}", desc, why));
+}
+
 fn domains(ctx: &mut Ctx) {
   let cases = ctx.n / 2;
   for i in 0..cases {
@@ -407,43 +450,7 @@ fn domains(ctx: &mut Ctx) {
       }
     };
     ctx.s("C19.domains", d.len() == expect_n && nd == expect_n, "domains/count", &format!("{} n={} expected={}", desc, d.len(), expect_n));
-    let n = d.len();
-    let mut ok_frac = true;
-    let mut ok_duty = true;
-    let mut ok_orient = true;
-    let mut why = String::new();
-    for (j, (p, q)) in d.iter().enumerate() {
-      let zc = -1. + (2. * j as f64 + 1.) / n as f64;
-      let a = match ic(&w, zc.clamp(-1., 1.), len) {
-        Some(a) => a,
-        None => continue,
-      };
-      if !(a.abs() <= 1.) {
-        continue; // outside the statement's hypothesis (window values in [-1,1])
-      }
-      if !(*p >= 0. && *p <= 1. && *q >= 0. && *q <= 1. && (p + q - 1.).abs() <= 1e-15) {
-        ok_frac = false;
-        why = format!("j={} pair=({:e},{:e})", j, p, q);
-      }
-      let narrow = p.min(*q);
-      // sin(π d) = |a|; the formula acos(1-2a²)/2π is conditioned like 1e-16/|a| (and 1e-8 absolutely near a = 0)
-      if ((PI * narrow).sin() - a.abs()).abs() > 5e-8 {
-        ok_duty = false;
-        why = format!("j={} a={:e} d={:e} sin(pi d)={:e}", j, a, narrow, (PI * narrow).sin());
-      }
-      if a == 1. && !(*p == 0.5 && *q == 0.5) {
-        ok_duty = false;
-        why = format!("j={} a=1 pair=({:e},{:e})", j, p, q);
-      }
-      // the narrower fraction comes first in the first half of the crystal, second in the second half
-      if (zc < -1e-12 && p > q) || (zc > 1e-12 && p < q) {
-        ok_orient = false;
-        why = format!("j={} zc={:e} pair=({:e},{:e})", j, zc, p, q);
-      }
-    }
-    ctx.s("C19.domains", ok_frac, "domains/fractions", &format!("{} {}", desc, why));
-    ctx.s("C19.domains", ok_duty, "domains/duty-cycle", &format!("{} {}", desc, why));
-    ctx.s("C19.domains", ok_orient, "domains/orientation", &format!("{} {}", desc, why));
+    list_clauses(ctx, &desc, &w, len, &d);
   }
   // the crate's own examples
   let pp = PeriodicPoling::new(10e-6 * M, Apodization::Off);
@@ -787,6 +794,123 @@ fn window_routes(ctx: &mut Ctx) {
     let w = Apodization::Gaussian { fwhm: len * M };
     let ok = ic(&w, 1., len).map(|v| (v - 0.5).abs() <= 1e-12).unwrap_or(false) && ic(&w, -1., len).map(|v| (v - 0.5).abs() <= 1e-12).unwrap_or(false);
     ctx.s("C19.gaussian", ok, "gaussian/half-maximum", &format!("kind=Gaussian fwhm={:e} L={:e} z=1", len, len));
+  }
+}
+
+// ------------------------------------------------------------------ domain counts: whole periods + a fraction
+
+/// `L = |Λ|·(N + f)` with N whole periods (every decade up to the statement's 10^5 domains, weighted to the top)
+/// and a remainder f that is log-uniform down to 1e-9, just below 1, uniform, or exactly 0; the poling description
+/// is reached through every constructor / mutator. The count of `num_domains`, `poling_domains` and
+/// `poling_domain_lengths` must be ⌈L/Λ⌉: against the same float division as the statement's formula for every
+/// case, and against N + 1 wherever the exact quotient is unambiguous (1e-9 ≤ f ≤ 1 − 1e-9: the two roundings of
+/// `|Λ|·(N+f)` and the one of the division move the quotient by < 4e-11 for N ≤ 10^5).
+fn domain_counts(ctx: &mut Ctx) {
+  let cases = if ctx.thorough { ctx.n / 3 } else { ctx.n / 2 };
+  for i in 0..cases {
+    let mag = match ctx.rng.below(8) {
+      0 => 1e-6,
+      1 => ctx.rng.log_range(1e-12, 1e3), // no range restriction in the statement
+      _ => ctx.rng.log_range(0.2e-6, 200e-6),
+    };
+    let period = if ctx.rng.below(3) == 0 { -mag } else { mag };
+    let whole: usize = match ctx.rng.below(12) {
+      0 => 0,
+      1 => ctx.rng.between(1, 9),
+      2 => ctx.rng.between(10, 999),
+      3 => ctx.rng.between(1_000, 29_999),
+      4 => *ctx.rng.pick(&[1, 9, 99, 999, 9_999, 32_767, 32_768, 65_535, 65_536, 99_998, 99_999]),
+      5 | 6 => ctx.rng.log_range(1., 99_999.) as usize,
+      _ => ctx.rng.between(30_000, 99_999),
+    };
+    let (fclass, frac) = match ctx.rng.below(10) {
+      0 => ("zero", 0.),
+      1 | 2 => ("uniform", ctx.rng.unit()),
+      3 | 4 => ("near-one", 1. - ctx.rng.log_range(1e-9, 0.5)),
+      _ => ("small", ctx.rng.log_range(1e-9, 0.5)),
+    };
+    let (fclass, frac) = if whole == 0 && frac == 0. { ("small", ctx.rng.log_range(1e-12, 0.5)) } else { (fclass, frac) };
+    let len = mag * (whole as f64 + frac);
+    let w = match ctx.rng.below(8) {
+      0 | 1 | 2 => Apodization::Off,
+      3 => Apodization::Gaussian { fwhm: ctx.rng.log_range(0.05, 5.) * len * M },
+      4 => Apodization::Interpolate((0..ctx.rng.between(2, 12)).map(|_| ctx.rng.unit()).collect()),
+      _ => six(ctx.rng.below(6), 1.),
+    };
+    // every way to arrive at (period, window)
+    let other = period * *ctx.rng.pick(&[-1., 1.000001, 0.999999, 3.7, 0.5, -2.]);
+    let route = ctx.rng.below(6);
+    let (rname, w) = match route {
+      5 => ("off.with_period", Apodization::Off),
+      _ => (["new", "with_period", "assign_period", "with_apodization", "set_apodization"][route], w),
+    };
+    let w2 = w.clone();
+    let built = guard(move || match route {
+      0 => PeriodicPoling::new(period * M, w2),
+      1 => PeriodicPoling::new(other * M, w2).with_period(period * M),
+      2 => {
+        let mut x = PeriodicPoling::new(other * M, w2);
+        x.assign_period(period * M);
+        x
+      }
+      3 => PeriodicPoling::new(period * M, Apodization::Hamming(2.)).with_apodization(w2),
+      4 => {
+        let mut x = PeriodicPoling::new(period * M, Apodization::Interpolate(vec![0.25, 1.]));
+        x.set_apodization(w2);
+        x
+      }
+      _ => PeriodicPoling::Off.with_period(period * M),
+    });
+    let desc = format!("route={} {} L={:e} period={:e} whole={} frac={:e}", rname, apod_desc(&w), len, period, whole, frac);
+    let pp = match built {
+      Some(pp) => pp,
+      None => {
+        ctx.s("C19.domains", false, "domains/panic", &desc);
+        continue;
+      }
+    };
+    let pp1 = pp.clone();
+    let nd = match guard(move || pp1.num_domains(len * M)) {
+      Some(nd) => nd,
+      None => {
+        ctx.s("C19.domains", false, "domains/panic", &desc);
+        continue;
+      }
+    };
+    ctx.k("num_domains", &format!("{} {}", fl(len), fl(period)), &nd.to_string());
+    ctx.count(&format!("counts/whole<=1e{}", (whole.max(1) as f64).log10().ceil() as usize));
+    ctx.count(&format!("counts/frac/{}", fclass));
+    ctx.count(&format!("counts/route/{}", rname));
+    // the statement's formula in the same arithmetic
+    let expect_n = (len / mag).ceil() as usize;
+    ctx.s("C19.domains", nd == expect_n, "domains/count", &format!("{} n={} expected={}", desc, nd, expect_n));
+    // the exact ⌈L/Λ⌉ where rounding cannot matter
+    let unambiguous = frac >= 1e-9 && frac <= 1. - 1e-9;
+    if unambiguous {
+      ctx.s("C19.domains", nd == whole + 1, "domains/count/whole-plus-fraction", &format!("{} n={} expected={}", desc, nd, whole + 1));
+    }
+    // the lists
+    let every = if ctx.thorough { 25 } else { 5 };
+    if whole <= 3_000 || i % every == 0 {
+      let pp2 = pp.clone();
+      let doms = guard(move || pp2.poling_domains(len * M));
+      let pp3 = pp.clone();
+      let lens = guard(move || pp3.poling_domain_lengths(len * M));
+      match (doms, lens) {
+        (Some(d), Some(l)) => {
+          let want = if unambiguous { whole + 1 } else { expect_n };
+          ctx.s(
+            "C19.domains",
+            d.len() == want && l.len() == want,
+            "domains/count",
+            &format!("{} domains={} lengths={} expected={}", desc, d.len(), l.len(), want),
+          );
+          list_clauses(ctx, &desc, &w, len, &d);
+          ctx.count("counts/lists");
+        }
+        _ => ctx.s("C19.domains", false, "domains/panic", &desc),
+      }
+    }
   }
 }
 
